@@ -3,7 +3,8 @@
    adversary applies to its first attempt.  Oneway requests have no reply, so only the request-side fault applies. *)
 EXTENDS Naturals, Sequences, TLC, Json
 CONSTANTS MaxLen
-Kinds == {"normal", "oneway", "batch", "getattr", "raise"}
+\* fetch: the next item of a remote iterator that the script opened (fault free) on the same proxy
+Kinds == {"normal", "oneway", "batch", "getattr", "raise", "fetch"}
 Faults == {"none", "lose", "delay", "cut", "cut_reset", "reset_before", "reset_after", "stale", "seqalter", "dup"}
 \* sticky: the fault hits every attempt of the call (retries included), not only the first
 Retryable == {"lose", "delay", "cut", "cut_reset", "reset_before", "reset_after"}
